@@ -19,6 +19,9 @@ CHECKS = {
  "C20": dict(level="exploration", technique="reference-model + structural-invariant monitor on the live job table; sys.monitoring schedule perturbation for the two-thread layer",
    text="Stub jobs with scripted poll() go through the real add_job; after each of ~200k steps of start/exit/jobs/fg/bg/disown histories (main thread and alias-like worker thread) the dict+deque pair is compared with the A.5 model and structural invariants; a two-thread layer with seeded delay injection on every jobs.py function records exceptions and divergence at quiescence.",
    note="Model = DESIGN Appendix A.5. Stub jobs signal nobody (pids=[None]). `disown` of a finished-but-unpurged job is accepted either way. The two-thread layer currently always ends in the listed unsynchronised-table finding, so it cannot separate further concurrency regressions from it.", ref="§2 C20, A.5"),
+ "C11": dict(level="exploration", technique="conservation monitor on six read views of the live Env + reference stack model; multi-thread layer under sys.monitoring delay injection",
+   text="Random nested swap / DELETE_VAR mask / overlay / `$K=v cmd` scope programs run on the real Env; a snapshot of every read path is conserved across each scope (normal and exception exit), masks must vanish from all views at once, assignments to other variables must persist, alias threads must see the spawner's view, and 2-4 concurrent threads each check only their own view while delays are injected into swap/_set_item/_del_item/detype.",
+   note="Keys are warmed up before the first snapshot; swapped values are pre-typed; swaps nested inside an overlay shadowing the same key and the shared detype cache are listed known findings, so detype views are not separately judged in the multi-thread layer.", ref="§2 C11"),
 }
 NOT_BUILT = "check not built yet in this session (planned, see DESIGN.md §2); nothing is claimed for it"
 def main():
